@@ -251,6 +251,9 @@ def step (st : St) (line : String) : St × String :=
       if getN m "nowait" 0 == 1 then ({ st with b := b.apiTerminate (unesc cid) }, "ok")
       else finish st (b.apiTerminate (unesc cid))
     | "api", "expire" :: _ => finish st b.apiExpire
+    -- fault injection on the session store (`new … pe=faulty`): Remove reports a failure after doing its work; ending a session
+    -- does everything else regardless — nothing changes for the model
+    | "api", "failremove" :: _ => finish st b
     | "api", "backdate" :: cid :: secs :: _ =>
       if (b.sess? (unesc cid)).isNone then
         let (st, s) := finish st b
